@@ -768,6 +768,14 @@ def oracle_fit_structure(mon, a0, b0, fl_rfi, fl_mef, out):
         mon.ctx.counters['fit_degenerate'] += 1
         # a finite fit with positive slope whose e^b is merely not representable is the oracle's limit, not the fit's
         mon.last_fit_degenerate = 'unrepresentable' if (np.all(np.isfinite(params)) and params[0] > 0) else True
+        if getattr(mon, 'judge_nonpositive_slope', False) and np.all(np.isfinite(params)) and params[0] <= 0:
+            # "for every fit whatsoever ... zero at zero": judged literally by C09.  With a fitted slope <= 0 the
+            # power law diverges at the origin (listed known finding 'fit-nonpositive-slope')
+            with np.errstate(all='ignore'):
+                z = np.asarray(std_crv(np.array([0.0])), dtype=float)[0]
+                z2 = float(std_crv(0.0))
+            mon.chk(z == 0 and z2 == 0, 'fit:std-crv-not-zero-at-zero', known_key='fit-nonpositive-slope',
+                    at_zero=float(z), **d)
         return
     mon.last_fit_degenerate = False
     pos = a0[a0 > 0]
